@@ -77,7 +77,7 @@ META = {
         engine="lexgen", design_ref="3/C04",
         technique="property test with a validity predicate computed from the input text alone (rapid)",
         level="Stateful, simple and text/scanner-based lexers (three scanner configurations) over inputs rich in newlines, CR/LF, multi-byte and "
-              "invalid UTF-8, long inputs, all entry points and filenames; every successful token stream is validated against the input: values, "
+              "invalid UTF-8, a leading byte-order mark, long inputs, all entry points (string, bytes, readers that deliver one byte at a time / data together with EOF / have a name of their own / were partly read before, a second live lexer of the definition) and filenames; every successful token stream is validated against the input: values, "
               "offsets, order, single final EOF, concatenation, line/column recomputed from the offset, filename. Exploration.",
         note="Trusts the ~60-line validator (lexgen/validate.go) and utf8.RuneCountInString as the meaning of 'characters'. Generated lexers are "
              "covered by the compile stage of C05 (same validator)."),
@@ -107,8 +107,8 @@ META = {
         technique="generated concurrent workloads compared with fresh-instance results, run under the Go race detector (rapid)",
         level="Workloads of 2-16 goroutines (after a sequential history) call ParseString (also with AllowTrailing or Trace)/ParseBytes/Parse/Lex/String/LexString on shared generated "
               "parsers, back-reference definitions, a two-mapper parser, the package-level ebnf parser and ported example parsers; every result, "
-              "compared after all goroutines finished, must deep-equal the result of the same call on a fresh instance, and the race detector must "
-              "stay silent. Exploration of workloads; interleavings are whatever the Go scheduler produces.",
+              "compared after all goroutines finished, must deep-equal the result of the same call on a fresh instance, the race detector must "
+              "stay silent and every call must return (goroutines still blocked after 120 s are reported as a deadlock). Exploration of workloads; interleavings are whatever the Go scheduler produces.",
         note="The harness does not own the scheduler: this is evidence, not coverage, of interleavings; the race detector only sees conflicting accesses "
              "that actually occur. Objects that cannot be re-created (package-level ebnf parser, fixtures) are compared with a baseline taken before "
              "any other use. Generated lexers are not part of the workloads."),
@@ -125,7 +125,7 @@ META = {
         level="Batches of 200-400 generated grammars (every operator, unions, direct and union-mediated recursion, typed and escaped literals, embedded "
               "structs) are compiled as named Go types; Parser.String() must not panic, must parse with the ebnf package, list the root first, define "
               "every reachable production exactly once and nothing else, contain per production exactly the literals / token references / production "
-              "references / operators computed independently from the IR, and survive ebnf print->parse. A second parser for the same root type with "
+              "references / operators computed independently from the IR (user-implemented productions: referenced, not defined), and survive ebnf print->parse; the text must not change after ParserForProduction was called on the parser. A second parser for the same root type with "
               "other union members is checked in the same process. Exploration.",
         note=GRAM_NOTE + " Anonymous struct productions are outside the statement ('named productions') and are not generated; grouping is compared as "
              "a multiset of items per production, not as an exact tree (the statement asks for containment and round trip)."),
@@ -158,7 +158,7 @@ META = {
         engine="gram", design_ref="3/C08",
         technique="property test against an independent left-recursion analysis (nullability fix-point + left-edge reachability) on generated recursive systems (rapid)",
         level="Generated systems of 1-4 mutually referring productions (recursion through unions) with every reference placement the statement lists, "
-              "plus 14 static fixtures with direct struct recursion: Build must reject exactly the systems in which the independent analysis finds a "
+              "plus 14 static fixtures with direct struct recursion: Build (with the root struct and with the root union as grammar type) must reject exactly the systems in which the independent analysis finds a "
               "production that re-enters itself before consuming. Accepted grammars are parsed on sampled inputs under a crash journal and their "
               "recursion depth (from the Trace output) must stay proportional to the input length. Exploration.",
         note=GRAM_NOTE + " Direct struct recursion cannot be generated with reflect.StructOf; it is covered by hand-written fixtures only."),
@@ -184,7 +184,7 @@ META = {
         engine="gram", design_ref="3/C10",
         technique="metamorphic property test: re-spacing / re-commenting of generated inputs (rapid)",
         level="Each generated token sequence is rendered to two texts differing only in elided tokens; after confirming via Parser.Lex that the "
-              "non-elided sequences are equal, acceptance and all captured fields must be equal. Grammars that name elided types are checked "
+              "non-elided sequences are equal, acceptance and all captured fields must be equal (also for a grammar whose root production is user code). Grammars that name elided types are checked "
               "against the reference parser's PeekAny rule. Exploration over grammars x inputs x renderings x elision sets x lookahead.",
         note=GRAM_NOTE + " No known finding is listed (F2 was repaired upstream)."),
     "C11": dict(
@@ -198,7 +198,8 @@ META = {
         engine="gram", design_ref="3/C13",
         technique="metamorphic property test over the lookahead ladder (rapid)",
         level="Each generated (grammar without ~/lookahead groups, input) pair is parsed with 7 parsers sharing AST types and differing only in "
-              "UseLookahead (0,1,2,3,5,MaxLookahead,unlimited); success at k must imply success with a deeply equal AST at every larger k'. Exploration.",
+              "UseLookahead (0,1,2,3,5,MaxLookahead and the unlimited values -1,-2,MinInt); success at k must imply success with a deeply equal AST at every larger k'. "
+              "Hand-written directly recursive grammars and one input of 10^5 items (10^5 abandoned attempts in one parse) are included. Exploration.",
         note=GRAM_NOTE),
     "C12": dict(
         engine="props", design_ref="3/C12",
@@ -206,6 +207,7 @@ META = {
         level="Generated operation sequences over generated token streams/elision sets are stepped in lockstep with an "
               "explicit model and every observer is compared after every step; exploration, not proof: it samples the "
               "space of streams x histories (tens of thousands of sequences quick, millions thorough).",
-        note="Trusts the harness's 40-line cursor model and rapid's generators; streams are <= 30 tokens over 4 types; "
+        note="Trusts the harness's 40-line cursor model and rapid's generators; streams are <= 30 tokens over 10 token types (positive, negative, 64 apart) plus, "
+             "once per process, streams with runs of 65535-131073 elided tokens; the elision slice passed to Upgrade is overwritten afterwards; "
              "FastForward is only called with cursors previously returned by PeekAny, Range within bounds (the documented domain)."),
 }
